@@ -246,6 +246,19 @@ TRUSTED_BASE = [
     "int/bool/None/list/dict (float and str statuses answer the uncatchable class NotRepresented); the hypothesis of the cmd_* equalities: the "
     "Namespace's `policy` is a str or absent/None; SYNTACTIC readings re-read on every run and compared with the pinned expectation: the delivery "
     "paths' parser calls and hints, validate_policy's schema resource and validator call, cli.py's imports, the default-algorithm literals",
+    "for the translated _parse_dt (C04) and the translated `rel` branch of eval_condition / _canon_subject / _canon_resource (C13; harness/pytolean_rel.py "
+    "on top of pytolean_except.py, lean/Rbacx/Model/PyRel.lean, validated against the real functions on every C04 / C13 run by Run/SrcEvalRel.lean: result or "
+    "exception class, checker calls, final memo) the trusted readings are: STATE-AND-EXCEPTION-PASSING for the rel range (St -> Except CondErr PyVal x St; the "
+    "state = content of the object REL_LOCAL_CACHE.get() returns, `none` = not a dict, + the list of checker calls; it survives an exception); "
+    "REL_CHECKER.get() = an optional OUTCOME function of check's argument list (some v returned / none raised), every call recorded, a call never touches "
+    "the memo; EVAL_LOOP.get() = a handle or None; resolve_awaitable_in_worker, _ctx_hash and getattr are function parameters (the obligation instantiates "
+    "them with the identity on the outcome, a str function that identifies exactly the contexts normCtx identifies, 'absent'); the two datetime conversions "
+    "of _parse_dt are external EXPRESSIONS — datetime.fromtimestamp(float(x), tz=timezone.utc), datetime.fromisoformat(x.replace('Z', '+00:00')) — whose "
+    "text the plugin pins and whose outcome is the oracle's (fromtimestamp assumed to raise only OverflowError / ValueError / OSError); x.tzinfo is not "
+    "None is the awareness bit of PyVal.dt and x.replace(tzinfo=timezone.utc) on a naive value only sets it; d.update(e) on a local built by dict(...) and "
+    "stored nowhere is rebinding (the model's dictUpdate); logger calls are skipped; the theorems speak about envs Guard builds (EnvOk) and caveat contexts "
+    "that are not non-empty lists / strs (CtxOk); the memo is threaded through condition trees / rule lists / decisions by the hand-written evalCondM … "
+    "guardDecideM only (the translated branch is tied node by node)",
 ]
 
 
